@@ -7,6 +7,7 @@ import (
 	"go/constant"
 	"go/token"
 	"go/types"
+	"strconv"
 	"strings"
 
 	"golang.org/x/tools/go/ssa"
@@ -59,6 +60,23 @@ func (e *Env) resolveType(s string) types.Type {
 		// try through imports of the package: pkgname.Type
 		if i := strings.Index(s, "."); i > 0 && !strings.ContainsAny(s, "[]*( ") {
 			pn, tn := s[:i], s[i+1:]
+			// file-level import aliases of the annotated package
+			if pp, ok := e.u.cx.pkgs[e.pkg.Path()]; ok {
+				for _, f := range pp.Syntax {
+					for _, is := range f.Imports {
+						if is.Name != nil && is.Name.Name == pn {
+							path, _ := strconv.Unquote(is.Path.Value)
+							if ip, ok := e.u.cx.pkgs[path]; ok && ip.Types != nil {
+								if o := ip.Types.Scope().Lookup(tn); o != nil {
+									if _, ok := o.(*types.TypeName); ok {
+										return o.Type()
+									}
+								}
+							}
+						}
+					}
+				}
+			}
 			for _, imp := range e.pkg.Imports() {
 				if imp.Name() == pn {
 					if o := imp.Scope().Lookup(tn); o != nil {
@@ -100,6 +118,23 @@ func (e *Env) specSort(s string) (string, types.Type) {
 	if strings.HasPrefix(s, "set[") && strings.HasSuffix(s, "]") {
 		ks, _ := e.specSort(s[4 : len(s)-1])
 		return "(Array " + ks + " Bool)", nil
+	}
+	if strings.HasPrefix(s, "arr[") {
+		// arr[K]V : SMT array
+		depth := 0
+		for i := 3; i < len(s); i++ {
+			if s[i] == '[' {
+				depth++
+			}
+			if s[i] == ']' {
+				depth--
+				if depth == 0 {
+					ks, _ := e.specSort(s[4:i])
+					vs, _ := e.specSort(s[i+1:])
+					return "(Array " + ks + " " + vs + ")", nil
+				}
+			}
+		}
 	}
 	switch s {
 	case "Int", "mathint", "time":
@@ -676,6 +711,16 @@ func (e *Env) trCall(n *ECall) Val {
 		}
 		_, val, ks, vs := u.mapHeaps(mt)
 		return Val{T: sel(u.heapCur(e.cur, val), a.T), S: "(Array " + ks + " " + vs + ")"}
+	case "upd":
+		as := args()
+		return Val{T: sto(as[0].T, as[1].T, as[2].T), S: as[0].S}
+	case "str": // string value of a []byte
+		a := e.tr(n.Args[0])
+		st, ok := a.Ty.Underlying().(*types.Slice)
+		if !ok {
+			e.fail("str() of non-slice")
+		}
+		return Val{T: u.strOfBytes(e.cur, a.T, st.Elem()), S: "Str", Ty: types.Typ[types.String]}
 	case "setadd":
 		as := args()
 		return Val{T: sto(as[0].T, as[1].T, "true"), S: as[0].S}
@@ -698,13 +743,16 @@ func (e *Env) trCall(n *ECall) Val {
 		g := "$called:" + s.V
 		u.regHeap(g, "Bool")
 		return Val{T: u.heapCur(e.cur, g), S: "Bool", Ty: boolT}
-	case "ret", "ret1", "ret2":
+	case "ret", "ret1", "ret2", "first":
 		s, ok := n.Args[0].(*EStr)
 		if !ok {
 			e.fail("ret(\"pattern\")")
 		}
-		k := map[string]int{"ret": 0, "ret1": 1, "ret2": 2}[n.Fn]
+		k := map[string]int{"ret": 0, "ret1": 1, "ret2": 2, "first": 0}[n.Fn]
 		g := fmt.Sprintf("$ret:%s:%d", s.V, k)
+		if n.Fn == "first" {
+			g = fmt.Sprintf("$first:%s:0", s.V)
+		}
 		srt, ok2 := u.heapSort[g]
 		if !ok2 {
 			e.fail("ret(%q): no such call seen yet", s.V)
